@@ -395,7 +395,16 @@ def handle (toks : List String) : String :=
       let r := validate lim s root
       let prerec := field rest "prerec" == "1"
       let kept := (scopeLog lim s root).filter fun p => !(prerec && p.2 && p.1.isMissing)
+      -- a rule of `verify_claim` (claim.rs, `manifest.multipleParents`) that is not a graph
+      -- event: a non-update claim with more than one `parentOf` ingredient assertion is a
+      -- failure; every claim in the memo map is verified once the walks return `Ok`
+      let g := gcrm lim s false (fuelFor s) root {}
+      let multiParents := g.2.map.any fun u =>
+        match s[u]? with
+        | some c => !c.update && (c.ings.filter (·.parent)).length > 1
+        | none => false
       if r.out != .ok then s!"err:{r.out.str}"
+      else if multiParents then "flagged"
       else if kept.all (fun p => !p.1.isFailure) then "clean" else "flagged"
     else "bad-op"
   | [] => "bad-op"
